@@ -88,6 +88,16 @@ def judge(t, route, meth, fn, xi, phi, Fn, Xi, Phi, case):
     return f_e, x_e
 
 
+def _pick(fn, sc):
+    """The selected frequency as the user may write it: a list of float, or - when the value is a whole number of Hz - a list,
+    tuple or array of int (the form rotates with the level)."""
+    if abs(fn - round(fn)) < 1e-9:
+        k = int(round(fn))
+        form = SCALES.index(sc) % 4 if sc in SCALES else 3
+        return [[float(k)], [k], (k,), np.array([k])][form]
+    return [fn]
+
+
 def run_case(t, seed, nxseg, frel, xi, nch, fs, band, meth, scales=SCALES, with_setup=True):
     from pyoma2.functions import fdd
 
@@ -104,7 +114,7 @@ def run_case(t, seed, nxseg, frel, xi, nch, fs, band, meth, scales=SCALES, with_
     for sc in scales:
         t.evaluations += 1
         try:
-            Fn, Xi, Phi, _ = fdd.EFDD_mpe(sc * Sy, freq, 1.0 / fs, [fn], "per", method=meth, DF1=DF1, DF2=DF2)
+            Fn, Xi, Phi, _ = fdd.EFDD_mpe(sc * Sy, freq, 1.0 / fs, _pick(fn, sc), "per", method=meth, DF1=DF1, DF2=DF2)
         except Exception as e:
             t.violation(f"raises:{type(e).__name__}:EFDD_mpe:{meth}", f"{e!r} at level {sc:g}", dict(case, scale=sc))
             continue
@@ -143,7 +153,7 @@ def setup_route(t, seed, nxseg, fs, meth, freq, Sy, fn, xi, phi, DF1, DF2, case)
             ss.run_by_name("a")
         finally:
             fdd.SD_est = orig
-        ss.mpe("a", sel_freq=[fn], DF1=DF1, DF2=DF2)
+        ss.mpe("a", sel_freq=_pick(fn, 0), DF1=DF1, DF2=DF2)
         res = alg.result
         Fn, Xi, Phi = res.Fn, res.Xi, res.Phi
     except Exception as e:
